@@ -37,6 +37,23 @@ func (c *compositeCtl) Stores() []vs.InformerSpec {
 	return out
 }
 
+func (c *compositeCtl) SyncInfo(parent vs.Obj) vs.Obj {
+	out := vs.Obj{"sel": vs.SelectorInfo(nil), "selOK": false, "marker": ""}
+	if parent == nil {
+		return out
+	}
+	if c.pc.isUsingGeneratedLabelSelector() {
+		out["sel"] = vs.SelectorInfo(vs.Obj{"matchLabels": vs.Obj{"controller-uid": vs.AsStr(vs.AsMap(parent["metadata"])["uid"])}})
+		out["selOK"] = true
+		return out
+	}
+	sel := vs.AsMap(vs.AsMap(parent["spec"])["selector"])
+	info := vs.SelectorInfo(sel)
+	out["sel"] = info
+	out["selOK"] = len(vs.AsMap(info["ml"])) > 0 || len(vs.AsList(info["me"])) > 0
+	return out
+}
+
 func strp(s string) *string { return &s }
 func boolp(b bool) *bool    { return &b }
 
